@@ -164,7 +164,9 @@ def ch_job(job):
         if all(labels.count(k) > 0 for k in range(K)):
             break
     X = [[rng.randint(0, 3) for _ in range(C)] for _ in range(T)]
-    col, shift = rng.randrange(C), rng.choice([1, 2, 5])
+    # translations from the size of the spread up to 1e8 times it (a level far above the spread is where a one-pass
+    # "sum of squares minus n * mean^2" dispersion loses every digit; the two-pass definition does not)
+    col, shift = rng.randrange(C), rng.choice([1, 2, 5, 2 ** 20, 10 ** 6, 2 ** 27, 3 * 10 ** 8])
 
     def index_of(data):
         args = arguments.UserArguments(sparsity_weight=0.1, iteration_limit=3, label_switching_cost=1.0,
